@@ -276,11 +276,21 @@ def c_spec(c02_csrc, name, src, arch):
                    lambda: c02_csrc.compile_c(src, arch), c02_csrc.ARCHS[arch], 3000)
 
 
+def fam_spec(shape, n, mask):
+    import irsem_py
+    import c02_cfgfam
+    ir = _ppci()[1]
+    return ModSpec('cfgfam', {'source': 'cfgfam', 'shape': shape, 'phis': n, 'mask': mask},
+                   lambda: c02_cfgfam.build(ir, shape, n, mask), irsem_py.DEFAULT_CFG, FUEL)
+
+
 def spec_from_gen(g):
     c02_gen = _ppci()[0]
     import c02_csrc
     if g.get('source', 'irgen') == 'c':
         return c_spec(c02_csrc, g.get('name', 'replay'), g['c_source'], g['arch'])
+    if g.get('source') == 'cfgfam':
+        return fam_spec(g['shape'], g['phis'], g['mask'])
     return irgen_spec(c02_gen, g['seed'], g['size'], tuple(g['features']))
 
 
@@ -304,6 +314,9 @@ def differential(ctx, nmod, thorough, seed0, nc=None):
             specs.append(c_spec(c02_csrc, name, src, arch))
     if nc is None:
         nc = 40 if not thorough else 400
+    import c02_cfgfam
+    for shape, nphi, mask in c02_cfgfam.members():
+        specs.append(fam_spec(shape, nphi, mask))
     for k in range(nc):
         specs.append(c_spec(c02_csrc, 'gen_c_%d' % (seed0 + k), c02_csrc.gen_c(random.Random(seed0 + k)),
                             archs[k % len(archs)]))
@@ -318,10 +331,11 @@ def differential(ctx, nmod, thorough, seed0, nc=None):
         text0 = module_text(m0)
         rng = random.Random(seed0 * 7 + k)
         base = {}
-        funcs = m0.functions if sp.source == 'irgen' else c02_csrc.entries(ir, m0)
+        funcs = m0.functions if sp.source in ('irgen', 'cfgfam') else c02_csrc.entries(ir, m0)
         for f in funcs:
             runs = []
-            vecs = arg_vectors(rng, f, irgen, 6) if sp.source == 'irgen' else c02_csrc.c_arg_vectors(rng, f, 7)
+            vecs = arg_vectors(rng, f, irgen, 6) if sp.source == 'irgen' else (
+                c02_cfgfam.ARGS if sp.source == 'cfgfam' else c02_csrc.c_arg_vectors(rng, f, 7))
             for a in vecs:
                 o, ru = c02_gen.run_main(m0, f.name, a, sp.fuel, cfg=sp.cfg)
                 stats['orig_' + ('done' if isinstance(o, OkV) else str(o))] += 1
@@ -331,7 +345,7 @@ def differential(ctx, nmod, thorough, seed0, nc=None):
                     runs.append((a, o.v))
             base[f.name] = runs
         trans = [Transform('pass', [n]) for n in PASS_NAMES]
-        if sp.source == 'c':
+        if sp.source in ('c', 'cfgfam'):
             trans += [Transform('pass', list(CANONICAL)), Transform('pass', ['Mem2RegPromotor', 'CleanPass']),
                       Transform('pass', ['Mem2RegPromotor', 'LoadAfterStorePass', 'DeleteUnusedInstructionsPass',
                                          'CleanPass']),
@@ -387,7 +401,8 @@ def differential(ctx, nmod, thorough, seed0, nc=None):
                              'instructions': sum(len(b.instructions) for f in m0.functions for b in f.blocks)})
     ctx.cov['distinct_nontrivial'] += nontrivial
     ctx.cov['stages']['differential'] = {'irgen_modules': nmod, 'c_corpus_modules': len(c02_csrc.CORPUS) * len(archs),
-                                         'c_generated_modules': nc, 'stats': dict(stats),
+                                         'c_generated_modules': nc, 'cfg_family_modules': len(c02_cfgfam.members()),
+                                         'stats': dict(stats),
                                          'pass_exceptions': dict(crashes)}
     return stats
 
